@@ -108,7 +108,7 @@ def d7(ctx, rep, prog):
             raise core.Incomplete(f'writer {bid} not found')
         b = prog.bodies[ks[0]]
         sub = core.Report('C06', rep.tier)
-        oo_names = {c['callee'].split('::')[-1] for c in b['calls'] if 'OpenOptions' in c['callee']}
+        oo_names = c17.oo_flags(b['calls'])
         writes = [c for c in b['calls'] if c17.is_write_event(c, oo_names)]
         c17.truncating(prog, b, ks[0], sub, qual.split('::')[-1], {'file': b['file'], 'line': b['line']}, writes)
         for o in sub.obligations:
